@@ -402,6 +402,12 @@ func runVClock(out *vlib.Out, pid string, sc *vcScenario) string {
 	// ---- the oracle's own bookkeeping
 	initT, stallT := proxyInitTimeout, proxyStallTimeout
 	limit, idle := initT, time.Duration(0)
+	// A Read that returns (0, nil) — `u-` / `d-`, a frame without payload — delivers nothing and ends nothing.
+	// Whether it counts as activity for the idle timeout the property does not say (the code under check
+	// re-arms after every Read that returns no error, so it does): the oracle keeps both views — `limit`/`idle`
+	// as if it did not count, `limitA`/`idleA` as if it did — and claims "must still be there" only while both
+	// views say so, "must be gone" only when both say so, nothing in between.
+	limitA, idleA := initT, time.Duration(0)
 	var sentUp, sentDown []byte
 	const (
 		mustLive = iota // every pause so far stayed a second or more below the timeout in force
@@ -427,10 +433,11 @@ func runVClock(out *vlib.Out, pid string, sc *vcScenario) string {
 		case 'w':
 			w.now += st.dt
 			idle += st.dt
+			idleA += st.dt
 			if claim == mustLive {
 				switch {
-				case idle+time.Second <= limit:
-				case idle >= limit+time.Second:
+				case idle+time.Second <= limit && idleA+time.Second <= limitA:
+				case idle >= limit+time.Second && idleA >= limitA+time.Second:
 					claim = mustDie
 				default:
 					claim = noClaim
@@ -448,7 +455,10 @@ func runVClock(out *vlib.Out, pid string, sc *vcScenario) string {
 				} else {
 					sentDown = append(sentDown, st.data...)
 				}
-				limit, idle = stallT, 0
+				if len(st.data) > 0 {
+					limit, idle = stallT, 0
+				}
+				limitA, idleA = stallT, 0
 			}
 		case 'U', 'D':
 			c := client
@@ -670,13 +680,32 @@ func vcCorpus() []*vcScenario {
 	cs = append(cs, &vcScenario{flav: "p0p0", origin: "corpus", steps: []vcStep{{kind: 'U'}}})
 	cs = append(cs, &vcScenario{flav: "r1p0", origin: "corpus", steps: []vcStep{{kind: 'D'}, {kind: 'u', data: g.data(4)}}})
 	cs = append(cs, &vcScenario{flav: "p0p0", origin: "corpus", steps: []vcStep{{kind: 'u', data: g.data(4)}, {kind: 'd', data: g.data(4)}, {kind: 'U'}, vcWait(time.Hour)}})
+	// reads that return (0, nil) in mid-stream (a framing transport delivering a frame without payload): the
+	// direction goes on, what follows is relayed, the tunnel stays; at the very start, between the chunks of a
+	// long one-way transfer, on the silent side of it, in both directions at once, right before the end
+	for i, fl := range []string{"p0p0", "r0p0", "p1r1", "r2r3"} {
+		kind, other := byte('u'), byte('d')
+		if i%2 == 1 {
+			kind, other = other, kind
+		}
+		s := &vcScenario{flav: fl, origin: "corpus"}
+		s.steps = append(s.steps, vcStep{kind: kind}, vcWait(ini-time.Second), vcStep{kind: kind, data: g.data(6)})
+		for j := 0; j < 5; j++ {
+			s.steps = append(s.steps, vcWait(stall/2), vcStep{kind: kind}, vcStep{kind: other}, vcWait(stall/2-time.Second), vcStep{kind: kind, data: g.data(2 + j)})
+		}
+		s.steps = append(s.steps, vcStep{kind: kind}, vcStep{kind: other, data: g.data(9)})
+		s.steps = append(s.steps, g.ending(i, 0, stall)...)
+		cs = append(cs, s)
+	}
+	cs = append(cs, &vcScenario{flav: "p0p0", origin: "corpus", steps: []vcStep{{kind: 'u', data: g.data(4)}, {kind: 'u'}, {kind: 'u', data: g.data(5)}, {kind: 'd'}, {kind: 'd', data: g.data(7)}, {kind: 'U'}}})
+	cs = append(cs, &vcScenario{flav: "r1p0", origin: "corpus", steps: []vcStep{{kind: 'd'}, {kind: 'u'}, {kind: 'd'}, vcWait(time.Second), {kind: 'u', data: g.data(3)}, {kind: 'd', data: g.data(3)}, vcWait(stall - time.Second), {kind: 'D'}}})
 	// chunks larger than the relay buffer: several iterations at the same instant
 	cs = append(cs, &vcScenario{flav: "p0p0", origin: "corpus", steps: []vcStep{{kind: 'u', data: g.data(70000)}, vcWait(stall - time.Second), {kind: 'd', data: g.data(32*1024 + 1)}, vcWait(stall - time.Second), {kind: 'U'}}})
 	return cs
 }
 
 // every script of at most n events over {chunk up, chunk down, pause up to one second before the timeout,
-// pause of one second} that keeps the pace, each with each kind of ending; connection flavours cycled
+// pause of one second, a read that returns (0, nil)} that keeps the pace, each with each kind of ending; connection flavours cycled
 func vcEnumerate(n int, visit func(*vcScenario)) {
 	g := &vcGen{}
 	k := 0
@@ -705,6 +734,10 @@ func vcEnumerate(n int, visit func(*vcScenario)) {
 				}
 				steps = append(steps, vcWait(time.Second))
 				idle += time.Second
+			case 4:
+				// a Read that returns (0, nil), on the client or the covert side by position; the pace is
+				// kept as if it were not activity (the stricter of the oracle's two views)
+				steps = append(steps, vcStep{kind: "ud"[len(steps)%2]})
 			}
 		}
 		for end := 0; end < 5; end++ {
@@ -716,7 +749,7 @@ func vcEnumerate(n int, visit func(*vcScenario)) {
 		if len(prefix) == n {
 			return
 		}
-		for a := byte(0); a < 4; a++ {
+		for a := byte(0); a < 5; a++ {
 			rec(append(append([]byte(nil), prefix...), a))
 		}
 	}
@@ -775,6 +808,12 @@ func vcRandom(r *vlib.Rand) *vcScenario {
 			sz = []int{32 * 1024, 32*1024 + 1, 50000}[r.Intn(3)]
 			big = false
 		}
+		if r.Chance(1, 9) {
+			// a Read that returns (0, nil): nothing delivered, nothing ended; the pace is kept as if it were
+			// not activity
+			s.steps = append(s.steps, vcStep{kind: kind})
+			continue
+		}
 		s.steps = append(s.steps, vcStep{kind: kind, data: g.data(sz)})
 		limit, chunked = proxyStallTimeout, true
 	}
@@ -792,8 +831,14 @@ func vcHist(out *vlib.Out, s *vcScenario, ans string) {
 			span += st.dt
 		case 'u':
 			ups++
+			if len(st.data) == 0 {
+				out.Count("clock:read-returns-0-nil")
+			}
 		case 'd':
 			downs++
+			if len(st.data) == 0 {
+				out.Count("clock:read-returns-0-nil")
+			}
 		case 'U', 'D':
 			out.Count("clock:end-of-stream")
 		}
